@@ -179,6 +179,32 @@ def pick(vars_, kinds, k, pred=None):
     return el[len(el) - 1 - (k % len(el))]
 
 
+HERM_PRIMS = {"PauliX", "PauliY", "PauliZ", "Hadamard", "Identity", "Hermitian"}
+NON_GATES = {"Hermitian", "BasisState"}
+GATE_KEEP = {"adjoint", "ctrl", "pow", "dpow", "prod", "prod_nl", "matmul"}
+HERM_KEEP = {"adjoint", "prod", "prod_nl", "matmul", "sum", "sum_nl", "add", "sub", "s_prod", "s_prod_nl", "mul", "neg"}
+
+
+def flags_for(s, arg_flags=()):
+    """Syntactic classification of a result: 'gate' (may be controlled), 'herm' (may be used in probs(op=...))."""
+    if s["k"] == "op":
+        return frozenset((["gate"] if s["op"] not in NON_GATES else []) + (["herm"] if s["op"] in HERM_PRIMS else []))
+    out = set()
+    if s["f"] in GATE_KEEP and all("gate" in f for f in arg_flags):
+        out.add("gate")
+    if s["f"] in HERM_KEEP and all("herm" in f for f in arg_flags):
+        out.add("herm")
+    return frozenset(out)
+
+
+def arg_pred(s):
+    if s["k"] == "wrap" and s["f"] == "ctrl":
+        return lambda v: "gate" in v[2]
+    if s["k"] == "meas" and s["mp"] == "probs_op":
+        return lambda v: "herm" in v[2]
+    return None
+
+
 N_ARGS = {"adjoint": 1, "ctrl": 1, "pow": 1, "dpow": 1, "s_prod": 1, "s_prod_nl": 1, "exp": 1, "mul": 1, "neg": 1,
           "matmul": 2, "add": 2, "sub": 2}
 
@@ -274,35 +300,36 @@ def compile_stmt(qp, s):  # noqa: C901
     QM = qp.queuing.QueuingManager
     if k == "op":
         def f(env):
-            env.vars.append(("op", specs.build_op(s)))
+            env.vars.append(("op", specs.build_op(s), flags_for(s)))
     elif k == "wrap":
         def f(env):
-            idx = [pick(env.vars, ("op",), r) for r in s["args"][:n_args(s)]]
+            idx = [pick(env.vars, ("op",), r, arg_pred(s)) for r in s["args"][:n_args(s)]]
             if any(i is None for i in idx):
                 return
-            env.vars.append(("op", apply_wrap(qp, s, [env.vars[i][1] for i in idx])))
+            env.vars.append(("op", apply_wrap(qp, s, [env.vars[i][1] for i in idx]),
+                             flags_for(s, [env.vars[i][2] for i in idx])))
     elif k == "meas":
         def f(env):
             obs = None
             if s["mp"] in ("expval", "var", "probs_op", "sample_op", "counts_op"):
-                i = pick(env.vars, ("op",), s["arg"])
+                i = pick(env.vars, ("op",), s["arg"], arg_pred(s))
                 if i is None:
                     return
                 obs = env.vars[i][1]
-            env.vars.append(("meas", make_meas(qp, s, obs)))
+            env.vars.append(("meas", make_meas(qp, s, obs), frozenset()))
     elif k == "apply":
         def f(env):
             i = pick(env.vars, ("op", "meas"), s["arg"])
             if i is None:
                 return
-            kind, obj = env.vars[i]
-            opened = [c for c in env.open if c is not None] if None not in env.open else []
+            kind, obj, fl = env.vars[i]
+            opened = [c for c in env.open if c is not None and not isinstance(c, str)]
             if s["ctx"] is not None and opened:
                 new = qp.apply(obj, context=opened[s["ctx"] % len(opened)])
             else:
                 new = qp.apply(obj)
             env.copies.append((obj, new))
-            env.vars.append((kind, new))
+            env.vars.append((kind, new, fl))
     elif k == "queue":
         def f(env):
             i = pick(env.vars, ("op", "meas"), s["arg"])
@@ -317,7 +344,7 @@ def compile_stmt(qp, s):  # noqa: C901
         def f(env):
             ctx = qp.queuing.AnnotatedQueue() if s["ctx"] == "queue" else qp.tape.QuantumTape()
             env.ctxs.append((s["ctx"], ctx))
-            env.vars.append(("tape" if s["ctx"] == "tape" else "queue", ctx))
+            env.vars.append(("tape" if s["ctx"] == "tape" else "queue", ctx, frozenset()))
             saved = list(env.open)
             try:
                 with ctx:
@@ -360,7 +387,7 @@ def compile_stmt(qp, s):  # noqa: C901
                 if k == "adjfn":
                     res = qp.adjoint(qfunc)()
                     for o in (res if isinstance(res, list) else [res]):
-                        env.vars.append(("op", o))
+                        env.vars.append(("op", o, frozenset()))
                 else:
                     qp.ctrl(qfunc, control=[f"c{s['id']}"])()
             finally:
@@ -441,8 +468,8 @@ class Model:
             out.append(c)
         return list(reversed(out))
 
-    def new_obj(self, term, kind, operands=(), gate=False, maybe=()):
-        self.objs.append({"term": term, "kind": kind, "ops": list(operands), "gate": gate, "maybe": list(maybe)})
+    def new_obj(self, term, kind, operands=(), flags=frozenset(), maybe=()):
+        self.objs.append({"term": term, "kind": kind, "ops": list(operands), "flags": flags, "maybe": list(maybe)})
         return len(self.objs) - 1
 
     def enqueue(self, oid, target, extra=()):
@@ -459,8 +486,8 @@ class Model:
         if oid not in items:
             items.append(oid)
 
-    def create(self, term, kind, operands=(), args=(), gate=False, maybe=()):
-        oid = self.new_obj(term, kind, operands, gate, maybe)
+    def create(self, term, kind, operands=(), args=(), flags=frozenset(), maybe=()):
+        oid = self.new_obj(term, kind, operands, flags, maybe)
         a = self.active()
         if a is not None:
             self.enqueue(oid, a, extra=args)
@@ -482,7 +509,7 @@ class Model:
         f = s["f"]
         O = self.objs
         t = [O[i]["term"] for i in ids]
-        g = all(O[i]["gate"] for i in ids)
+        fl = flags_for({"k": "wrap", "f": f}, [O[i]["flags"] for i in ids])
         a = ids[0]
 
         def flat(ids_, head):
@@ -497,22 +524,22 @@ class Model:
         def sprod(c, i, lazy):
             if not lazy and O[i]["term"][0] == "s_prod":
                 base = O[i]["ops"][0]
-                return self.create(("s_prod", c * O[i]["term"][1], O[base]["term"]), "op", [base], [i])
-            return self.create(("s_prod", c, O[i]["term"]), "op", [i], [i])
+                return self.create(("s_prod", c * O[i]["term"][1], O[base]["term"]), "op", [base], [i], flags=fl)
+            return self.create(("s_prod", c, O[i]["term"]), "op", [i], [i], flags=fl)
 
         def nary(head, ids_, lazy):
             ops = ids_ if lazy else flat(ids_, head)
-            return self.create((head, tuple(O[i]["term"] for i in ops)), "op", ops, ids_, gate=(g and head == "prod"))
+            return self.create((head, tuple(O[i]["term"] for i in ops)), "op", ops, ids_, flags=fl)
 
         if f == "adjoint":
-            return self.create(("adjoint", t[0]), "op", [a], [a], gate=g)
+            return self.create(("adjoint", t[0]), "op", [a], [a], flags=fl)
         if f == "ctrl":
             cw = f"c{s['id']}"
             maybe = [a] + (O[a]["maybe"] if O[a]["term"][0] == "ctrl" else [])
             # the result may be a custom class without operand objects, or keep (a flattened) base
-            return self.create(("ctrl", t[0], cw), "op", [], [a], gate=g, maybe=maybe)
+            return self.create(("ctrl", t[0], cw), "op", [], [a], flags=fl, maybe=maybe)
         if f in ("pow", "dpow"):
-            return self.create(("pow", t[0], s["z"]), "op", [a], [a], gate=g)
+            return self.create(("pow", t[0], s["z"]), "op", [a], [a], flags=fl)
         if f in ("prod", "prod_nl", "matmul"):
             return nary("prod", ids, f == "prod")
         if f in ("sum", "sum_nl", "add"):
@@ -531,32 +558,30 @@ class Model:
     def stmt(self, s):  # noqa: C901
         k = s["k"]
         if k == "op":
-            gate = PRIMS.get(s["op"], (0, 0, s["op"] not in ("Hermitian",)))[2]
             spec_ = {kk: s[kk] for kk in ("op", "p", "w")}
-            self.vars.append(("op", self.create(("op", spec_), "op", gate=gate)))
+            self.vars.append(("op", self.create(("op", spec_), "op", flags=flags_for(s)), flags_for(s)))
         elif k == "wrap":
-            idx = [pick(self.vars, ("op",), r) for r in s["args"][:n_args(s)]]
+            idx = [pick(self.vars, ("op",), r, arg_pred(s)) for r in s["args"][:n_args(s)]]
             if any(i is None for i in idx):
                 return
             ids = [self.vars[i][1] for i in idx]
-            if s["f"] == "ctrl" and not self.objs[ids[0]]["gate"]:
-                raise Reject("ctrl of a non-gate operator")
-            self.vars.append(("op", self.wrap(s, ids)))
+            new = self.wrap(s, ids)
+            self.vars.append(("op", new, self.objs[new]["flags"]))
         elif k == "meas":
             obs = None
             if s["mp"] in ("expval", "var", "probs_op", "sample_op", "counts_op"):
-                i = pick(self.vars, ("op",), s["arg"])
+                i = pick(self.vars, ("op",), s["arg"], arg_pred(s))
                 if i is None:
                     return
                 obs = self.vars[i][1]
             term = ("meas", s["mp"], None if obs is None else self.objs[obs]["term"], tuple(s["w"]))
             ops = [] if obs is None else [obs]
-            self.vars.append(("meas", self.create(term, "meas", ops, ops)))
+            self.vars.append(("meas", self.create(term, "meas", ops, ops), frozenset()))
         elif k == "apply":
             i = pick(self.vars, ("op", "meas"), s["arg"])
             if i is None:
                 return
-            kind, oid = self.vars[i]
+            kind, oid, fl = self.vars[i]
             if self.active() is None:
                 self.stats["exc"] += 1
                 raise MRaise("RuntimeError:apply")
@@ -565,11 +590,11 @@ class Model:
             if s["ctx"] is not None and withs:
                 target = withs[s["ctx"] % len(withs)]
             o = self.objs[oid]
-            new = self.new_obj(o["term"], o["kind"], o["ops"], o["gate"], o["maybe"])
+            new = self.new_obj(o["term"], o["kind"], o["ops"], o["flags"], o["maybe"])
             self.enqueue(new, target)
             self.copies.append((oid, new))
             self.stats["apply"] += 1
-            self.vars.append((kind, new))
+            self.vars.append((kind, new, fl))
         elif k == "queue":
             i = pick(self.vars, ("op", "meas"), s["arg"])
             if i is not None and self.active() is not None:
@@ -580,19 +605,26 @@ class Model:
         elif k == "with":
             cid = len(self.ctx)
             self.ctx.append({"kind": s["ctx"], "items": []})
-            self.vars.append(("tape" if s["ctx"] == "tape" else "queue", cid))
+            self.vars.append(("tape" if s["ctx"] == "tape" else "queue", cid, frozenset()))
             if s["ctx"] == "tape" and self.active() is not None:
                 self.ctx[self.active()]["items"].append(("tape", cid))
             self.stack.append(cid)
             depth = len([c for c in self.stack if c != "STOP"])
             self.stats["maxdepth"] = max(self.stats["maxdepth"], depth)
+            bad = None
             try:
                 self.block(s["body"])
+            except MRaise as e:
+                bad = e
             finally:
                 self.stack.pop()
+            # QuantumTape.__exit__ processes its queue even when an exception is in flight; the documented
+            # ValueError of process_queue then replaces that exception
             if s["ctx"] == "tape" and not self.well_ordered(cid):
                 self.stats["exc"] += 1
                 raise MRaise("ValueError:order")
+            if bad is not None:
+                raise bad
         elif k == "stop":
             self.stack.append("STOP")
             try:
@@ -620,9 +652,9 @@ class Model:
             if k == "adjfn":
                 for x in reversed(items):
                     o = self.objs[x]
-                    self.vars.append(("op", self.create(("adjoint", o["term"]), "op", [x], [x], gate=o["gate"])))
+                    self.vars.append(("op", self.create(("adjoint", o["term"]), "op", [x], [x]), frozenset()))
             else:
-                if not all(self.objs[x]["gate"] for x in items):
+                if not all("gate" in self.objs[x]["flags"] for x in items):
                     raise Reject("ctrl of a non-gate operator")
                 for x in items:
                     self.wrap({"f": "ctrl", "id": s["id"], "n": 1}, [x])
@@ -718,7 +750,7 @@ def check(spec):  # noqa: C901
     if len(env.vars) != len(model.vars) or any(a[0] != b[0] for a, b in zip(env.vars, model.vars)):
         raise Viol("variables", f"real {[v[0] for v in env.vars]} model {[v[0] for v in model.vars]}")
     real_of = {}
-    for (kind, obj), (_, oid) in zip(env.vars, model.vars):
+    for (kind, obj, _f), (_, oid, _g) in zip(env.vars, model.vars):
         if kind in ("op", "meas"):
             real_of[oid] = obj
     # model contexts of kind queue/tape are numbered in entry order, like env.ctxs
@@ -767,7 +799,7 @@ def check(spec):  # noqa: C901
         if not qp.equal(new, orig):
             raise Viol("apply-copy", f"copy {new} differs from {orig}")
     st_ = model.stats
-    labels = [f"depth{min(st_['maxdepth'] + 1, 4)}"]
+    labels = [f"depth{st_['maxdepth']}"]
     for key in ("consumed", "apply", "stop_skipped", "exc", "outer_kept"):
         if st_[key]:
             labels.append(key)
@@ -777,7 +809,7 @@ def check(spec):  # noqa: C901
         labels.append("caught:" + c)
     if any(s["k"] in ("adjfn", "ctrlfn") for s in _walk(spec["body"])):
         labels.append("fn-transform")
-    nontrivial = st_["maxdepth"] >= 1 or (st_["consumed"] and st_["apply"])
+    nontrivial = st_["maxdepth"] >= 2 or (st_["consumed"] and st_["apply"])
     return Result(nontrivial, labels)
 
 
